@@ -32,64 +32,153 @@ Proof.
     all: unfold finish, upd, set_ph; cbn [body]; left; reflexivity.
 Qed.
 
-(* every step can be given its ghost update *)
+(* every step can be given its ghost update; the log grows by exactly what the receiver returned *)
+Definition step_log (a : actor) (r : option res) (lg : list res) : list res :=
+  match a, r with CR, Some x => lg ++ [x] | _, _ => lg end.
+
 Lemma step_has_history rs b0 e0 s a s' r rd dn lg :
   hreach rs b0 e0 s rd dn lg -> In (a, (s', r)) (internal s) ->
-  exists rd' dn' lg', hreach rs b0 e0 s' rd' dn' lg'.
+  exists rd' dn', hreach rs b0 e0 s' rd' dn' (step_log a r lg).
 Proof.
-  intros R Hin. destruct (step_body_shape _ _ _ _ Hin) as [E|[e E]].
-  - exists rd, dn, (match a, r with CR, Some x => lg ++ [x] | _, _ => lg end).
+  intros R Hin. unfold step_log. destruct (step_body_shape _ _ _ _ Hin) as [E|[e E]].
+  - exists rd, dn.
     eapply h_step; [exact R|exact Hin| |reflexivity]. left. auto.
   - destruct (draining (rph s)) eqn:Ed.
-    + exists rd, (dn ++ [e]), (match a, r with CR, Some x => lg ++ [x] | _, _ => lg end).
+    + exists rd, (dn ++ [e]).
       eapply h_step; [exact R|exact Hin| |reflexivity]. right. exists e. rewrite Ed. auto.
-    + exists (rd ++ [e]), dn, (match a, r with CR, Some x => lg ++ [x] | _, _ => lg end).
+    + exists (rd ++ [e]), dn.
       eapply h_step; [exact R|exact Hin| |reflexivity]. right. exists e. rewrite Ed. auto.
 Qed.
 
-Definition has_history rs b0 e0 (s : st) : Prop := exists rd dn lg, hreach rs b0 e0 s rd dn lg.
-
-Lemma explore_history rs b0 e0 f : forall s acc s2 got,
-  has_history rs b0 e0 s -> In (Some (s2, got)) (explore f s acc) -> has_history rs b0 e0 s2.
+(* only the receiver returns results *)
+Lemma reader_returns_nothing s a s' r : In (a, (s', r)) (internal s) -> a = R -> r = None.
 Proof.
-  induction f as [|f IH]; intros s acc s2 got Hh Hin; cbn [explore] in Hin.
+  intros Hin ->. unfold internal in Hin. apply in_app_or in Hin. destruct Hin as [Hin|Hin].
+  - apply in_map_iff in Hin. destruct Hin as [[s2 r2] [Heq Hin]]. injection Heq as <- ->.
+    unfold reader_steps in Hin. destruct (rph s) eqn:Eph; [| | |destruct Hin].
+    all: split_in Hin.
+    all: try match goal with H : _ = (_, _) |- _ => injection H as <- <- end.
+    all: reflexivity.
+  - destruct (pCR s) as [p|]; [|destruct Hin].
+    apply in_map_iff in Hin. destruct Hin as [[s2 r2] [Heq _]]. discriminate Heq.
+Qed.
+
+(* a state with a ghost history whose log is lg, and on which Q holds *)
+Definition has_log rs b0 e0 (Q : st -> Prop) (s : st) (lg : list res) : Prop :=
+  (exists rd dn, hreach rs b0 e0 s rd dn lg) /\ Q s.
+
+Definition internal_stable (Q : st -> Prop) : Prop :=
+  forall s a s' r, Q s -> In (a, (s', r)) (internal s) -> Q s'.
+
+Lemma crs_snoc acc a x : crs (acc ++ [(a, x)]) = crs acc ++ match a with CR => [x] | R => [] end.
+Proof. unfold crs. rewrite flat_map_app. cbn. rewrite app_nil_r. destruct a; reflexivity. Qed.
+
+Lemma explore_history rs b0 e0 Q (HQ : internal_stable Q) f : forall s acc s2 got lg,
+  has_log rs b0 e0 Q s (lg ++ crs acc) -> In (Some (s2, got)) (explore f s acc) ->
+  has_log rs b0 e0 Q s2 (lg ++ crs got).
+Proof.
+  induction f as [|f IH]; intros s acc s2 got lg Hh Hin; cbn [explore] in Hin.
   - destruct Hin as [Hin|[]]. discriminate.
   - destruct (internal s) as [|x steps] eqn:Ei.
     + destruct Hin as [Hin|[]]. injection Hin as <- <-. exact Hh.
     + apply in_flat_map in Hin. destruct Hin as [[a [s' r]] [Hx Hin]].
-      eapply IH; [|exact Hin]. destruct Hh as [rd [dn [lg R]]].
-      eapply step_has_history; [exact R|rewrite Ei; exact Hx].
+      eapply IH; [|exact Hin]. destruct Hh as [[rd [dn Rh]] Hq].
+      assert (Hin' : In (a, (s', r)) (internal s)) by (rewrite Ei; exact Hx).
+      split; [|eapply HQ; eauto].
+      destruct (step_has_history _ _ _ _ _ _ _ _ _ _ Rh Hin') as [rd' [dn' R']].
+      exists rd', dn'. unfold step_log in R'.
+      destruct r as [x0|].
+      * rewrite crs_snoc. destruct a.
+        -- pose proof (reader_returns_nothing _ _ _ _ Hin' eq_refl) as X. discriminate X.
+        -- rewrite app_assoc. exact R'.
+      * destruct a; exact R'.
 Qed.
 
-Theorem accepts_sound rs b0 e0 rounds : forall S,
-  (forall s, In s S -> has_history rs b0 e0 s) ->
-  accepts_from S rounds = true -> exists s, has_history rs b0 e0 s.
+Lemma res_eqb_eq x y : res_eqb x y = true <-> x = y.
 Proof.
-  induction rounds as [|[x obs] rest IH]; intros S HS Ha; cbn [accepts_from] in Ha.
-  - destruct S as [|s S]; [discriminate|]. exists s. apply HS. left. reflexivity.
+  destruct x, y; cbn; split; intro E; try discriminate; try reflexivity;
+    try (apply Z.eqb_eq in E; congruence); try (injection E as ->; apply Z.eqb_refl).
+Qed.
+
+(* the acceptance function is sound: every state it keeps after a list of rounds has a ghost history whose
+   result log is EXACTLY what the real client was observed to return in those rounds, in order; and any
+   predicate that the internal steps and the rounds' start events preserve still holds *)
+Theorem accepts_sound rs b0 e0 Q (okx : start -> Prop)
+  (HQ : internal_stable Q)
+  (HS : forall s x s', okx x -> Q s -> apply_start s x = Some s' -> Q s') rounds : forall S pre,
+  Forall (fun r : hround => okx (fst r)) rounds ->
+  (forall s, In s S -> has_log rs b0 e0 Q s pre) ->
+  accepts_from S rounds = true -> exists s, has_log rs b0 e0 Q s (pre ++ all_res rounds).
+Proof.
+  induction rounds as [|[x obs] rest IH]; intros S pre Hok HSt Ha; cbn [accepts_from] in Ha.
+  - destruct S as [|s S]; [discriminate|]. exists s. unfold all_res. cbn. rewrite app_nil_r. apply HSt. left. reflexivity.
   - set (S1 := flat_map (fun s => match apply_start s x with Some s' => [s'] | None => [] end) S) in *.
     set (ends := flat_map (fun s => explore fuel s []) S1) in *.
     destruct (existsb _ ends); [discriminate|].
     set (S2 := flat_map _ ends) in *.
     destruct S2 as [|y S2'] eqn:E2; [discriminate|]. rewrite <- E2 in Ha.
-    apply (IH S2); [|exact Ha]. intros s2 Hin2.
+    inversion Hok as [|r0 l0 Hx Hrest]; subst. cbn [fst] in Hx.
+    unfold all_res. cbn [flat_map snd]. fold (all_res rest). rewrite app_assoc.
+    apply (IH S2 (pre ++ obs)); [exact Hrest| |exact Ha]. intros s2 Hin2.
     unfold S2 in Hin2. apply in_flat_map in Hin2. destruct Hin2 as [e [He Hin2]].
     destruct e as [[s2' got]|]; [|destruct Hin2].
-    destruct (list_eqb res_eqb (crs got) obs); [|destruct Hin2]. destruct Hin2 as [<-|[]].
+    destruct (list_eqb res_eqb (crs got) obs) eqn:El; [|destruct Hin2]. destruct Hin2 as [<-|[]].
+    apply (list_eqb_eq res_eqb res_eqb_eq) in El. rewrite <- El.
     unfold ends in He. apply in_flat_map in He. destruct He as [s1 [H1 He]].
     unfold S1 in H1. apply in_flat_map in H1. destruct H1 as [s [Hs H1]].
     destruct (apply_start s x) as [s1'|] eqn:Ea; [|destruct H1]. destruct H1 as [<-|[]].
-    eapply explore_history; [|exact He].
-    destruct (HS s Hs) as [rd [dn [lg R]]]. exists rd, dn, lg. eapply h_start; eauto.
+    eapply explore_history; [exact HQ| |exact He]. cbn [crs flat_map]. rewrite app_nil_r.
+    destruct (HSt s Hs) as [[rd [dn Rh]] Hq]. split; [|eapply HS; eauto].
+    exists rd, dn. eapply h_start; eauto.
 Qed.
 
-(* what an accepted HTTP schedule means *)
+(* what an accepted HTTP schedule means: a run of the LTS whose receiver returned exactly the observed results *)
 Theorem accepted_http_schedule_is_a_run rs b0 e0 rounds :
   accepts_from [init rs b0 e0] rounds = true ->
-  exists s rd dn lg, hreach rs b0 e0 s rd dn lg /\ Inv b0 s rd dn lg.
+  exists s rd dn, hreach rs b0 e0 s rd dn (all_res rounds) /\ Inv b0 s rd dn (all_res rounds).
 Proof.
-  intro Ha. destruct (accepts_sound rs b0 e0 rounds [init rs b0 e0]) as [s [rd [dn [lg R]]]].
-  - intros s [<-|[]]. exists [], [], []. constructor.
+  intro Ha.
+  destruct (accepts_sound rs b0 e0 (fun _ => True) (fun _ => True) ltac:(intros ? ? ? ? ? ?; exact Logic.I)
+              ltac:(intros; exact Logic.I) rounds [init rs b0 e0] []) as [s [[rd [dn Rh]] _]].
+  - apply Forall_forall. intros; exact Logic.I.
+  - intros s [<-|[]]. split; [|exact Logic.I]. exists [], []. constructor.
   - exact Ha.
-  - exists s, rd, dn, lg. split; [exact R|apply (inv_reachable _ _ _ _ _ _ _ R)].
+  - cbn [app] in Rh. exists s, rd, dn. split; [exact Rh|apply (inv_reachable _ _ _ _ _ _ _ Rh)].
+Qed.
+
+(* the caller's context is live at the end of a schedule that never cancels nor lets the deadline fire *)
+Definition no_ctx_end (x : start) : Prop := match x with Cancel | Deadline => False | _ => True end.
+
+Lemma live_internal : internal_stable (fun s => cctx s = 0).
+Proof. intros s a s' r Hq Hin. destruct (internal_static _ _ _ _ Hin) as [_ E]. congruence. Qed.
+
+Lemma live_start s x s' : no_ctx_end x -> cctx s = 0 -> apply_start s x = Some s' -> cctx s' = 0.
+Proof.
+  intros Hx Hc Hs. destruct x; try destruct Hx; unfold apply_start in Hs.
+  - destruct (pCR s); [discriminate|]. injection Hs as <-. exact Hc.
+  - destruct (Nat.ltb (avail s) (length (body s))); [|discriminate]. injection Hs as <-. exact Hc.
+  - destruct (ended s); [discriminate|]. injection Hs as <-. exact Hc.
+Qed.
+
+(* single-response methods, on the OBSERVED results of an accepted schedule in which the caller's context
+   stays live: at most one message is handed to the caller, and if message x is, then the response body's
+   frames up to the first non-data frame are exactly [x] *)
+Theorem accepted_single_response_schedule b0 e0 rounds :
+  accepts_from [init false b0 e0] rounds = true ->
+  Forall (fun r : hround => no_ctx_end (fst r)) rounds ->
+  (length (got_msgs rounds) <= 1)%nat /\
+  forall x, In (RMsg x) (all_res rounds) ->
+    got_msgs rounds = [x] /\ exists rd rest, b0 = rd ++ rest /\ datas rd = [x].
+Proof.
+  intros Ha Hok.
+  destruct (accepts_sound false b0 e0 (fun s => cctx s = 0) no_ctx_end live_internal live_start
+              rounds [init false b0 e0] [] Hok) as [s [[rd [dn Rh]] Hc]].
+  - intros s [<-|[]]. split; [|reflexivity]. exists [], []. constructor.
+  - exact Ha.
+  - cbn [app] in Rh. split.
+    + exact (single_response_at_most_one _ _ _ _ _ _ Rh Hc).
+    + intros x Hin. destruct (single_response_exactly_one _ _ _ _ _ _ x Rh Hc Hin) as [M [Dd _]].
+      split; [exact M|].
+      destruct (i_cons _ _ _ _ _ (inv_reachable _ _ _ _ _ _ _ Rh)) as [lost E].
+      exists rd, (dn ++ body s ++ lost). split; [exact E|exact Dd].
 Qed.
